@@ -1,6 +1,7 @@
 package main
 
 import (
+	"encoding/hex"
 	"fmt"
 	"math/big"
 	"strings"
@@ -23,7 +24,7 @@ type biStep struct {
 
 var biModelled = []string{"SetInt64", "SetUint64", "SetDec", "SetMath", "Set", "Abs", "Neg", "Add", "Sub", "Mul", "Quo", "Rem",
 	"QuoRem", "Lsh", "Rsh", "Sqrt"}
-var biMirrorOnly = []string{"Div", "Mod", "DivMod", "And", "Or", "Xor", "AndNot", "Not", "Exp", "GCD", "GCDx", "GCDy", "SetBit"}
+var biMirrorOnly = []string{"Div", "Mod", "DivMod", "And", "Or", "Xor", "AndNot", "Not", "Exp", "GCD", "GCDx", "GCDy", "Gob", "SetBit"}
 
 func biState(z *apd.BigInt) string {
 	inline, ns, w0, w1 := apd.VerifBigIntState(z)
@@ -164,9 +165,7 @@ func runBigInt(prog []biStep) (line string) {
 			fmt.Sscan(s.arg, &ri)
 			m2 = ri
 			z.DivMod(x, y, &regs[ri])
-			q, rr := new(big.Int).DivMod(mx, my, new(big.Int))
-			mir[s.d].Set(q)
-			mir[ri].Set(rr)
+			mir[s.d].DivMod(mx, my, mir[ri]) // the mirror with the same aliasing (ri may be d)
 		case "And":
 			z.And(x, y)
 			mz.And(mx, my)
@@ -194,19 +193,27 @@ func runBigInt(prog []biStep) (line string) {
 			var ri int
 			fmt.Sscan(s.arg, &ri)
 			m2 = ri
-			g, cf := new(big.Int), new(big.Int)
 			if s.op == "GCDx" {
 				z.GCD(&regs[ri], nil, x, y)
-				g.GCD(cf, nil, mx, my)
+				mir[s.d].GCD(mir[ri], nil, mx, my) // the mirror with the same aliasing (ri may be d)
 			} else {
 				z.GCD(nil, &regs[ri], x, y)
-				g.GCD(nil, cf, mx, my)
+				mir[s.d].GCD(nil, mir[ri], mx, my)
 			}
-			if cf.Sign() == 0 {
-				cf.SetInt64(0)
+			if mir[ri].Sign() == 0 {
+				mir[ri].SetInt64(0)
 			}
-			mir[s.d].Set(g)
-			mir[ri].Set(cf)
+		case "Gob":
+			// z.GobDecode of the bytes in arg (hex): a gob encoding of x, or hand-made (a negative zero)
+			raw, _ := hex.DecodeString(s.arg)
+			e1 := z.GobDecode(raw)
+			e2 := mz.GobDecode(raw)
+			if (e1 == nil) != (e2 == nil) {
+				panic("GobDecode error mismatch")
+			}
+			if mz.Sign() == 0 {
+				mz.SetInt64(0)
+			}
 		case "SetBit":
 			z.SetBit(x, int(argv.Int64()), uint(s.b&1))
 			mz.SetBit(mx, int(argv.Int64()), uint(s.b&1))
@@ -299,7 +306,7 @@ func (r *rng) genBigIntProg() []biStep {
 			}
 		case "QuoRem", "DivMod":
 			ri := r.intn(4)
-			if y.Sign() == 0 || (ri == s.d && s.op == "DivMod") {
+			if y.Sign() == 0 {
 				continue
 			}
 			if s.op == "DivMod" && ri == s.b {
@@ -311,9 +318,7 @@ func (r *rng) genBigIntProg() []biStep {
 			if s.op == "QuoRem" {
 				mir[s.d].QuoRem(x, y, mir[ri])
 			} else {
-				q, rr := new(big.Int).DivMod(x, y, new(big.Int))
-				mir[s.d].Set(q)
-				mir[ri].Set(rr)
+				mir[s.d].DivMod(x, y, mir[ri])
 			}
 		case "Lsh":
 			k := r.pick([]int{0, 1, 31, 32, 63, 64, 65, 120, 127, 128, 200})
@@ -355,6 +360,9 @@ func (r *rng) genBigIntProg() []biStep {
 					ri = k
 				}
 			}
+			if r.coin(25) {
+				ri = s.d // the cofactor aliased to the receiver: math/big leaves the gcd there
+			}
 			if ri < 0 {
 				continue
 			}
@@ -365,17 +373,29 @@ func (r *rng) genBigIntProg() []biStep {
 				x, y = new(big.Int).Set(mir[s.a]), new(big.Int).Set(mir[s.b])
 			}
 			s.arg = fmt.Sprint(ri)
-			g, cf := new(big.Int), new(big.Int)
 			if s.op == "GCDx" {
-				g.GCD(cf, nil, x, y)
+				mir[s.d].GCD(mir[ri], nil, x, y)
 			} else {
-				g.GCD(nil, cf, x, y)
+				mir[s.d].GCD(nil, mir[ri], x, y)
 			}
-			if cf.Sign() == 0 {
-				cf.SetInt64(0)
+			if mir[ri].Sign() == 0 {
+				mir[ri].SetInt64(0)
 			}
-			mir[s.d].Set(g)
-			mir[ri].Set(cf)
+		case "Gob":
+			var raw []byte
+			if r.coin(30) {
+				raw = [][]byte{{2}, {3}, {3, 0}, {2, 0, 0}, {3, 1}, {2, 255, 255, 255, 255, 255, 255, 255, 255, 1}}[r.intn(6)]
+			} else {
+				raw, _ = x.GobEncode()
+			}
+			if err := new(big.Int).GobDecode(raw); err != nil {
+				continue
+			}
+			s.arg = hex.EncodeToString(raw)
+			z.GobDecode(raw)
+			if z.Sign() == 0 {
+				z.SetInt64(0)
+			}
 		case "SetBit":
 			k := r.pick([]int{0, 1, 63, 64, 127, 128, 129})
 			s.arg = fmt.Sprint(k)
